@@ -200,7 +200,7 @@ func batchCopyMap(w *World, src *Cont) (*Cont, error) {
 	if err != nil {
 		return nil, violf("NewMapFromBatchData failed: %v", err)
 	}
-	c := &Cont{IsMap: true, Keys: keys, Vals: vals, TypeID: 42, Map: m, VID: m.ValueID(), SID: m.SlabID()}
+	c := &Cont{IsMap: true, Keys: keys, Vals: vals, TypeID: 42, Map: m, VID: m.ValueID(), SID: m.SlabID(), Table: w.Digests != nil}
 	wrapWorld(w, c)
 	return c, nil
 }
@@ -392,7 +392,7 @@ func c17Copy(a c17Arg, res *TaskResult) {
 					continue
 				}
 				res.Counters["copies"]++
-				cp := &Cont{IsMap: isMap, TypeID: 42}
+				cp := &Cont{IsMap: isMap, TypeID: 42, Table: isMap && w.Digests != nil}
 				if isMap {
 					m, err := src.Map.CopyNonRefSimple(w.Addr, w.digesterBuilder())
 					if err != nil {
@@ -476,7 +476,7 @@ func c17CopyMutation(T uint32, isMap, inlined bool, seq []string, onSource bool,
 			return err.Error()
 		}
 	}
-	cp := &Cont{IsMap: isMap, TypeID: 42}
+	cp := &Cont{IsMap: isMap, TypeID: 42, Table: isMap && w.Digests != nil}
 	if isMap {
 		m, err := src.Map.CopyNonRefSimple(w.Addr, w.digesterBuilder())
 		if err != nil {
